@@ -238,6 +238,20 @@ build_shapes(int a, shapes_t *S)
                                                 push(S, t);
                                         }
                                 }
+                /* longer headers: the cipher range starts H bytes into the hashed range (H around the 16-byte folding steps of the CRC
+                 * kernels) and still runs to the end of the CRC field; cipher length >= 5 (see known findings F33 / F33b for the two
+                 * geometry classes that are excluded: cipher range ending early, cipher range starting inside the CRC field) */
+                static const uint32_t HDR[] = { 14, 16, 17, 20, 24, 28, 31, 32, 33, 40, 47, 48, 49, 63, 64, 65, 80 };
+                for (unsigned hi = 0; hi < sizeof HDR / sizeof HDR[0]; hi++)
+                        for (uint32_t hl = HDR[hi] + 1; hl <= maxh; hl += (hl < HDR[hi] + 40 ? 1 : 7))
+                                for (int d = 0; d < 2; d++) {
+                                        shape_t s = { .dir = (uint8_t) d, .inplace = 1, .geom = 4 };
+                                        s.hash_off = 0;
+                                        s.hash_len = hl;
+                                        s.cipher_off = HDR[hi];
+                                        s.len = hl + 4 - HDR[hi];
+                                        push(S, s);
+                                }
                 for (uint32_t cl = 1; cl <= maxh; cl++)
                         for (int d = 0; d < 2; d++) { /* cipher only (no CRC): tag not written */
                                 shape_t s = { .dir = (uint8_t) d, .inplace = 1, .geom = 3, .len = cl };
